@@ -478,7 +478,7 @@ def gen_c08(rng, n, tier):
                 # a transaction that is not marked local gets its signature verified: valid, flipped, truncated, empty,
                 # by another key, or without a sender
                 if r.random() < 0.2 and not txs[-1].startswith(("raw", "sig:", "hdr:")):
-                    kind = r.choice(["ok", "bad", "short", "empty", "other", "nofrom"])
+                    kind = r.choice(["ok", "bad", "short", "empty", "other", "nofrom", "ethtyp", "ethshort", "ethlong", "ethone"])
                     txs[-1] = f"sig:{kind} " + txs[-1]
                     tags.add("mal:sig-" + kind)
                 if r.random() < 0.05:
